@@ -22,7 +22,7 @@ def main(ctx):
     ev = ctx.ev
     quick = ctx.quick
     if quick:
-        sources = sched.QUICK_SOURCES
+        sources = list(sched.QUICK_SOURCES)
         configs = [(1, 0), (4, ctx.seed * 7 + 1), (16, ctx.seed * 7 + 2), (16, 0)]
         sim_sources, sim_n, slice_max, slice_timeout, slice_sources = 3, 40, 9, 120, 3
     else:
@@ -31,6 +31,7 @@ def main(ctx):
         configs = [(1, 0), (2, ctx.seed * 7 + 1), (4, ctx.seed * 7 + 2), (16, ctx.seed * 7 + 3), (16, 0),
                    (3, ctx.seed * 7 + 4)]
         sim_sources, sim_n, slice_max, slice_timeout, slice_sources = 12, 400, 11, 900, 8
+    sources += [(p, fl) for (_label, p, fl) in sched.scheduler_minifonts(ctx)]
     common.log("tracing %d sources x %d configs" % (len(sources), len(configs)))
     builds = sched.traced_builds(ctx, sources, configs)
 
